@@ -48,14 +48,14 @@ class FakeComm:
         self.sim.collective(self.rank, "Barrier", None, None)
 
     def Allreduce(self, A, B, op=None):
-        parts = self.sim.collective(self.rank, "Allreduce", None, numpy.array(A, copy=True))
-        B[...] = _sum(parts)
+        parts = self.sim.collective(self.rank, "Allreduce", None, _membuf(A).copy())
+        _membuf(B, writable=True)[:] = _sum(parts)
 
     def Reduce(self, A, B, op=None, root=0):
-        parts = self.sim.collective(self.rank, "Reduce", root, numpy.array(A, copy=True),
+        parts = self.sim.collective(self.rank, "Reduce", root, _membuf(A).copy(),
                                     may_leave_early=(self.rank != root))
         if self.rank == root:
-            B[...] = _sum(parts)
+            _membuf(B, writable=True)[:] = _sum(parts)
 
     def bcast(self, value, root=0):
         parts = self.sim.collective(self.rank, "bcast", root, value,
@@ -71,6 +71,18 @@ class FakeComm:
     def Recv(self, buf, source=0, tag=None):
         data = self.sim.recv(self.rank, source, tag)
         buf[...] = data
+
+
+def _membuf(A, writable=False):
+    """The buffer mpi4py sees: the array's memory as one flat run of elements.  Like mpi4py (which asks for
+    PyBUF_ANY_CONTIGUOUS) this accepts C- and Fortran-contiguous arrays, takes the elements in MEMORY order, and refuses
+    anything else."""
+    A = A if isinstance(A, numpy.ndarray) else numpy.asarray(A)
+    if A.flags.c_contiguous:
+        return A.reshape(-1)
+    if A.flags.f_contiguous:
+        return A.T.reshape(-1)
+    raise ValueError("ndarray is not contiguous")
 
 
 def _sum(parts):
